@@ -182,7 +182,7 @@ META = dict(functions=th.TREE_FUNCTIONS + ["DictNode.from_dict (canonical sort)"
                                             "HashableCounter equality", "ListNode.__eq__/edits"],
             stubs=th.TREE_STUBS + ["assignment stub memoised per symbolic table within a path (scipy is a function of its input)"],
             assumptions=th.TREE_ASSUME, files=th.TREE_FILES + ["graphtage/utils.py"])
-REGIONS = dict(mset_duplicates=lambda w, f: th.has_duplicate_members(w))
+REGIONS = dict(mset_duplicates=lambda w, f: th.matcher_collapse_region(w))
 
 
 def bounds_text(tier):
